@@ -987,6 +987,63 @@ func (w *world) genRSAVerify() {
 
 // ---------------------------------------------------------------- signed data
 
+// unequalRRset: records whose RDATA lengths differ and whose content order
+// and length order disagree (a shorter RDATA that sorts last, prefixes).
+func unequalRRset(r *vlib.R, owner []byte, typ uint16) []wireRR {
+	mk := func(rd []byte) wireRR {
+		return wireRR{owner: owner, typ: typ, class: 1, ttl: uint32(r.Intn(900)), rdata: rd}
+	}
+	var rrs []wireRR
+	switch typ {
+	case 16: // TXT "a" "zzzz", TXT "b"
+		rrs = []wireRR{mk([]byte{1, 'a', 4, 'z', 'z', 'z', 'z'}), mk([]byte{1, 'b'}), mk([]byte{1, 'a'})}
+	case 15: // MX 10 a. / MX 5 longer.
+		rrs = []wireRR{mk(append([]byte{0, 10}, joinWireName([][]byte{[]byte("a")})...)),
+			mk(append([]byte{0, 5}, joinWireName(genLabels(r, 2, 3, true))...))}
+	default:
+		base := r.Bytes(2 + r.Intn(5))
+		rrs = []wireRR{mk(base), mk(append(append([]byte(nil), base...), r.Bytes(1+r.Intn(4))...)), mk([]byte{base[0] + 1}), mk(nil)}
+	}
+	for i := len(rrs) - 1; i > 0; i-- {
+		j := r.Intn(i + 1)
+		rrs[i], rrs[j] = rrs[j], rrs[i]
+	}
+	return rrs
+}
+
+// octets that a name walker can trip over: the root-label value, separators and escapes of the
+// presentation form, length-octet and compression-pointer look-alikes, the highest value
+var trickyOctets = []byte{0x00, '.', '\\', ' ', '"', '*', 63, 64, 0xC0, 0xFF, ';', '@'}
+
+// trickyOwners: every tricky octet at the start, in the middle and at the end of a label, in the
+// first and in a later label.
+func trickyOwner(r *vlib.R, b byte, where int) [][]byte {
+	ls := genLabels(r, 2, 3, true)
+	l := genLabel(r, true)
+	l = append(l, 'x', 'y')
+	switch where % 3 {
+	case 0:
+		l[0] = b
+	case 1:
+		l[len(l)/2] = b
+	default:
+		l[len(l)-1] = b
+	}
+	if where >= 3 {
+		ls[1] = l
+	} else {
+		ls[0] = l
+	}
+	return ls
+}
+
+func (w *world) sdLine(typ uint16, labels int, signer, owner []byte, rrs []wireRR) {
+	r := w.r
+	low, _, _ := lowerWireName(signer)
+	w.out(fmt.Sprintf("sd data %d %d %d %d %d %d %d %d %s %s %s %s %s", typ, rrs[0].class, vlib.Pick(r, []int{8, 13, 15}), labels, 300,
+		uint32(r.U64()), uint32(r.U64()), r.Intn(65536), hexStr(pres(signer)), vlib.Hex(low), vlib.Hex(owner), canonToken(rrs), wiresToken(rrs)))
+}
+
 func (w *world) genSignedData() {
 	r := w.r
 	w.out("sd new")
@@ -1437,6 +1494,41 @@ func (w *world) baseCaseOpt(s *signer, o baseOpts) (vcase, []byte, bool) {
 	return vcase{k: k, sig: sig, rrs: rrs}, raw, true
 }
 
+// signedCase: a correctly signed RRset with a given zone, owner and records.
+func (w *world) signedCase(s *signer, zoneL, ownerL [][]byte, rrs []wireRR) (vcase, bool) {
+	r := w.r
+	alg := s.alg
+	if s.kind == "rsa" {
+		alg = 8
+	}
+	kb, _ := stdDecode(s.pub)
+	k := &dns.DNSKEY{Hdr: dns.RR_Header{Name: pres(joinWireName(recaseLabels(r, zoneL))), Rrtype: dns.TypeDNSKEY, Class: 1, Ttl: 300},
+		Flags: 257, Protocol: 3, Algorithm: alg, PublicKey: s.pub}
+	sf := sigFields{typeCovered: rrs[0].typ, alg: alg, labels: uint8(len(ownerL)), origTTL: 300, exp: 3500000000, inc: 1000000000,
+		keyTag: refKeyTag(257, 3, alg, kb)}
+	data, ok := refSignedData(sf, joinWireName(zoneL), rrs)
+	if !ok {
+		return vcase{}, false
+	}
+	raw := s.sign(alg, data)
+	if raw == nil {
+		return vcase{}, false
+	}
+	sig := &dns.RRSIG{Hdr: dns.RR_Header{Name: pres(joinWireName(ownerL)), Rrtype: dns.TypeRRSIG, Class: 1, Ttl: 300},
+		TypeCovered: sf.typeCovered, Algorithm: alg, Labels: sf.labels, OrigTtl: sf.origTTL, Expiration: sf.exp, Inception: sf.inc, KeyTag: sf.keyTag,
+		SignerName: pres(joinWireName(zoneL)), Signature: b64(raw)}
+	return vcase{k: k, sig: sig, rrs: rrs}, true
+}
+
+// dsLineFor emits a DS match against the library's own digest of the key.
+func (w *world) dsLineFor(owner string, flags, proto, alg int, pk string, dt int) {
+	want := libDigest(owner, flags, proto, alg, pk, dt)
+	if want == nil {
+		want = w.r.Bytes(32)
+	}
+	w.out(dsLine(owner, flags, proto, alg, pk, dt, want))
+}
+
 func cloneCase(c vcase) vcase {
 	k, s := *c.k, *c.sig
 	return vcase{k: &k, sig: &s, rrs: append([]wireRR(nil), c.rrs...)}
@@ -1637,6 +1729,76 @@ func (w *world) sweeps() {
 	w.out("ds new")
 	for dt := 0; dt < 256; dt++ {
 		w.dsCase(dt)
+	}
+	// owner names with octets a name walker can trip over, under RRsets of unequal RDATA lengths:
+	// the canonical order is by RDATA, whatever the owner looks like
+	w.out("sd new")
+	for i, b := range trickyOctets {
+		ls := trickyOwner(r, b, i%6)
+		owner := joinWireName(ls)
+		typ := vlib.Pick(r, []uint16{16, 15, 65280, 65280})
+		rrs := unequalRRset(r, owner, typ)
+		w.sdLine(typ, len(ls), joinWireName(ls[1:]), owner, rrs)
+		if i%3 == 0 { // and as a wildcard expansion
+			w.sdLine(typ, len(ls)-1, joinWireName(ls[1:]), owner, rrs)
+		}
+	}
+	w.out("vfy new")
+	for i, b := range trickyOctets {
+		ls := trickyOwner(r, b, (i+2)%6)
+		if c, ok := w.signedCase(vlib.Pick(r, w.others), ls[1:], ls, unequalRRset(r, joinWireName(ls), vlib.Pick(r, []uint16{16, 15, 65280}))); ok {
+			w.out(c.line())
+		}
+	}
+	// key texts wrapped with LF, bare CR and CRLF around the size ceiling (5456 characters of material)
+	w.out("ov new")
+	for _, nl := range []string{"\n", "\r", "\r\n"} {
+		for _, material := range []int{5456, 5457} {
+			body := strings.Repeat("QUJD", 1365)[:material]
+			for _, at := range []int{0, 64, 2700, 5455, 5456} {
+				if at > material {
+					continue
+				}
+				w.out("ov check " + hexStr(body[:at]+nl+body[at:]))
+			}
+			var wrapped strings.Builder // every 64 characters
+			for i := 0; i < len(body); i += 64 {
+				wrapped.WriteString(body[i:min(i+64, len(body))] + nl)
+			}
+			w.out("ov check " + hexStr(wrapped.String()))
+		}
+		for _, n := range []int{4065, 4092, 4093} { // real keys: the tag / DS of a wrapped key near the ceiling
+			text := b64(r.Bytes(n))
+			var wrapped strings.Builder
+			for i := 0; i < len(text); i += 64 {
+				wrapped.WriteString(text[i:min(i+64, len(text))] + nl)
+			}
+			w.out("kt new")
+			w.out(fmt.Sprintf("kt tag 257 3 8 %s", hexStr(wrapped.String())))
+			w.out("ds new")
+			w.dsLineFor("example.", 257, 3, 8, wrapped.String(), 2)
+			w.out("ov new")
+		}
+	}
+	// RFC 3110 layouts at every boundary: key material that ends inside the length field, inside the
+	// exponent, exactly at its end (no modulus octet), one octet later; both length forms
+	w.out("rsa new")
+	for _, eb := range [][]byte{{3}, {1, 0, 1}, {1, 0, 0, 0, 1}} {
+		for form := 1; form <= 3; form += 2 {
+			full := rsaPubRaw(eb, []byte{0xc3, 0x55}, form)
+			hdr := len(full) - 2 - len(eb)
+			for _, cut := range []int{0, 1, hdr - 1, hdr, hdr + len(eb) - 1, hdr + len(eb), hdr + len(eb) + 1, len(full)} {
+				if cut < 0 || cut > len(full) {
+					continue
+				}
+				pk := b64(full[:cut])
+				w.out("rsa parse " + hexStr(pk))
+				if cut >= hdr+len(eb) {
+					signed := r.Bytes(20)
+					w.out(fmt.Sprintf("rsa vfy 8 %s %s %s %s", hexStr(pk), vlib.Hex(signed), vlib.Hex(refHash(8, signed)), vlib.Hex(r.Bytes(128))))
+				}
+			}
+		}
 	}
 	// one full verification group per kind of key, every run: RSA narrow and wide exponent, both curves, Ed25519
 	kinds := []*signer{w.rsa[2*len(exponents)+1], w.others[0], w.others[1], w.others[2]}
